@@ -134,6 +134,11 @@ class C07(fw.Prop):
             # AARE with a bad ciphered initiate response / an old counter
             out.append(("aare-bad-tag", ["recv", ["aare", "0", "5", WRONG_TITLE, "d1d2d3d4d5d6d7d8", f"glo:{sc}:{fresh + 9}:junk:3"], None, "bad-tag"]))
             out.append(("aare-old-counter", ["recv", ["aare", "0", "5", WRONG_TITLE, "d1d2d3d4d5d6d7d8", f"glo:{sc}:0:junk:4"], None, "old-counter"]))
+            # ... claiming a title that is not 8 bytes, or with a text too short to hold a tag (refused before any tag is checked)
+            for j, t in enumerate(("58585800000009", "585858000000000909", "58")):
+                out.append(("aare-odd-title", ["recv", ["aare", "0", "5", t, "d1d2d3d4d5d6d7d8", f"glo:{sc}:{fresh + 10 + j}:junk:{5 + j}"], None, "bad-tag"]))
+            out.append(("aare-short-text", ["recv", ["aare", "0", "5", WRONG_TITLE, "d1d2d3d4d5d6d7d8", f"glo:{sc}:{fresh + 14}:short"], None, "short"]))
+            out.append(("rlre-short-text", ["recv", ["rlre", f"glo:{sc}:{fresh + 15}:short"], None, "short"]))
         return out
 
     def genuine(self, p, st):
@@ -177,6 +182,27 @@ class C07(fw.Prop):
                     cont.append(["send", "getReq", 1])
                     ops = base + [bad] + cont
                     yield self.make_case({"cfg": cfg.to_json(), "cfgname": name, "ops": ops, "bad": len(base), "tag": tag})
+                # the same refused inputs followed by a long genuine continuation that also passes through APDUs which need no
+                # deciphering (a release answered without user-information, a new association): nothing a refused input carried
+                # may surface later
+                if st in ("READY", "AWAITING_GET_RESPONSE", "AWAITING_SET_RESPONSE"):
+                    for i in range(n_bad):
+                        p = Path(name, cfg)
+                        base = p.to_state(st)
+                        good = p.resp(*g) if g else None
+                        tag, bad = self.bad_inputs(p, rng, good, deep)[i]
+                        if tag in ("truncate", "bitflip", "wrong-kind", "odd-proof", "plain-on-ciphered") and not deep:
+                            continue
+                        cont = [p.resp(*g)] if g and st != "READY" else []
+                        if cfg.pre:
+                            cont += [["send", "getReq", 1], p.resp("getRespNormal"), ["send", "setReq", 1], p.resp("setResp")]
+                        else:
+                            mech = 5 if name == "hls" else None
+                            cont += [["send", "rlrq", 1], ["recv", ["rlre", "absent"], None], ["send", "aarq", 1], p.resp("aare", (0, mech))]
+                            if name == "hls":
+                                cont += [["hls"], ["send", "actReq", 1], p.resp("actRespData", p.valid_proof(123))]
+                            cont += [["send", "getReq", 1], p.resp("getRespNormal")]
+                        yield self.make_case({"cfg": cfg.to_json(), "cfgname": name, "ops": base + [bad] + cont, "bad": len(base), "tag": tag + "+long"})
                 # replay: the genuine answer twice
                 if g and Path(name, cfg).ciphered:
                     p = Path(name, cfg)
